@@ -161,6 +161,12 @@ theorem tile_geometry_roundtrip_in_tile (e : Enc) (g : Geom) (hwf : g.wellFormed
       decodeGeometry f.ftype f.geometry = some (g.expected (e.ox, e.oy)) :=
   tile_geometry_roundtrip e g hwf (deltasOk_of_near (e.ox, e.oy) g.visited (e.ox, e.oy) (by simp) hn)
 
+example : Geom.near (4096, 8192) exPolygon := by
+  intro p hp
+  simp only [exPolygon, Geom.visited, List.filter, ringOrder] at hp
+  revert p
+  decide
+
 /-! ## winding -/
 
 /-- **C33, winding.** The ring a loop decodes to has the loop's signed area (surveyor's formula, tile
